@@ -385,6 +385,10 @@ func UDiv(a, b *T) *T {
 			return a
 		}
 	}
+	// (x * c) / c == x when the product did not wrap
+	if b.IsConst() && b.C != 0 && a.Op == OMul && a.rng && a.A[1].IsConst() && a.A[1].C == b.C {
+		return a.A[0]
+	}
 	if nw := narrowWidth(a, b); nw < a.W {
 		return ZExt(UDiv(Extract(a, nw-1, 0), Extract(b, nw-1, 0)), a.W)
 	}
